@@ -224,6 +224,7 @@ func (m *Manager) manageReader() {
 	var pkt drpcwire.Packet
 	var err error
 	var run int
+	var invoked uint64 // id of the newest stream an invoke was forwarded for
 
 	for !m.sigs.term.IsSet() {
 		// if we have a run of "small" packets, drop the buffer to release
@@ -272,6 +273,10 @@ func (m *Manager) manageReader() {
 				curr.Cancel(context.Canceled)
 			}
 
+			if pkt.Kind == drpcwire.KindInvoke {
+				invoked = pkt.ID.Stream
+			}
+
 			drpcdebug.Event(m, "rd.queue", pkt.ID.Stream)
 			select {
 			case m.pkts <- pkt:
@@ -287,6 +292,14 @@ func (m *Manager) manageReader() {
 		default:
 			if curr != nil && !curr.IsTerminated() {
 				curr.Cancel(context.Canceled)
+			}
+
+			// no stream is ever created for a packet whose stream was not
+			// invoked: the remote gave the stream up before invoking it (a
+			// soft cancel that raced the invoke). drop the packet instead of
+			// waiting, which would stop all reading on the connection.
+			if pkt.ID.Stream != invoked {
+				break
 			}
 
 			drpcdebug.Event(m, "rd.wait", pkt.ID.Stream)
